@@ -177,6 +177,9 @@ class OpacityCache(Singleton):
         """
         GlobalCache()['xsec_interpolation'] = interpolation_mode
         self.clear_cache()
+        # k-tables take their mode from the same global setting
+        from .ktablecache import KTableCache
+        KTableCache().clear_cache()
     
     
 
